@@ -36,3 +36,30 @@ Fixpoint list_eqb_pairs (a b : list (N * N)) : bool :=
   | (x1, y1) :: a', (x2, y2) :: b' => (x1 =? x2) && (y1 =? y2) && list_eqb_pairs a' b'
   | _, _ => false
   end.
+
+(* ------------------------------------------------------------------------------------------ *)
+(* Resilient runtime oracles.  sp_mon / hs_mon stop judging (None) once the partner breaks its credit rules.
+   Over long random simulator traces that would leave every later re-entry unchecked, so the runtime oracles
+   (tie.cmon only; the R obligations use the strict monitors) SUSPEND instead and re-synchronise at the next cycle
+   with the link down: from there the strict monitor runs again from sp_fresh with the expected sequence number the
+   implementation shows in that cycle (0 after a USB reset).  Monitor state = 2 * packed state + suspended flag. *)
+Definition sp_monR (n sw : N) (down : bool) (W hw : N) (m i o : N) : option (N * bool) :=
+  let ci := cin_of hw i in let co := unpack_cout hw o in
+  let resync := Some (2 * sp_enc W (sp_fresh n sw (if i_rst ci then 0 else o_exp co)), true) in
+  if N.odd m then (if restart ci then resync else Some (m, true))
+  else match sp_monN n sw down W (cin_of hw) (unpack_cout hw) (N.div2 m) i o with
+       | Some (m', ok) => Some (2 * m', ok)
+       | None => if restart ci then resync else Some (1, true)
+       end.
+
+Definition hs_monR (n sw : N) (down : bool) (W : N) (m i o : N) : option (N * bool) :=
+  let hi := hin_of i in let co := unpack_cout 128 o in
+  let st := hs_dec W (N.div2 m) in
+  let x' := rsx_step (fst st) (h_sink hi) (o_exp co) in
+  let rs := negb (h_en hi) || h_rst hi in
+  let resync := Some (2 * hs_enc W (x', sp_fresh n sw (if h_rst hi then 0 else o_exp co)), true) in
+  if N.odd m then (if rs then resync else Some (2 * hs_enc W (x', snd st) + 1, true))
+  else match hs_monN n sw down W (N.div2 m) i o with
+       | Some (m', ok) => Some (2 * m', ok)
+       | None => if rs then resync else Some (2 * hs_enc W (x', snd st) + 1, true)
+       end.
